@@ -154,7 +154,7 @@ def body():
                     for kind in ("DP0", "P1"):
                         if sp[kind].global_dof_count and kind == "DP0" or g.vertex_on_boundary.sum() == 0:
                             A = sparse.identity(sp[kind], sp[kind], sp[kind]).weak_form().to_dense()
-                            if abs(A.sum() - area) > TOL * area:
+                            if not (abs(A.sum() - area) <= TOL * area):   # NaN counts as a deviation
                                 fail("identity:area:%s" % kind, "entries of the %s mass matrix sum to %.12g, surface area %.12g" % (kind, A.sum(), area))
                 # Laplace-Beltrami
                 W = T["P1"].T.dot(m.block_diag("P1", "P1", m.lb)).dot(T["P1"])
@@ -162,7 +162,7 @@ def body():
                     par.quadrature.regular = o
                     A = sparse.laplace_beltrami(sp["P1"], sp["P1"], sp["P1"]).weak_form().to_dense()
                     chk.count((m.id, vname, "lb", o), True)
-                    if r2.rel(A, W) > TOL:
+                    if not (r2.rel(A, W) <= TOL):   # NaN counts as a deviation
                         fail("laplace_beltrami", "laplace_beltrami (P1, %s, order %d) deviates by %.3g from the exact surface-gradient matrix" % (vname, o, r2.rel(A, W)))
                         break
                 par.quadrature.regular = 4
@@ -187,9 +187,9 @@ def body():
                         chk.count((m.id, vname, kind, "gf", cplx), True)
                         # l2 norm and projections
                         want = np.sqrt(abs(np.conj(c).dot(M.dot(c))))
-                        if abs(f.l2_norm() - want) > TOL * max(1.0, want):
+                        if not (abs(f.l2_norm() - want) <= TOL * max(1.0, want)):   # NaN counts as a deviation
                             fail("gridfunction:l2_norm:%s" % kind, "l2_norm of a %s function (%s): %.14g, exact %.14g" % (kind, vname, f.l2_norm(), want))
-                        if r2.rel(f.projections(), M.dot(c)) > TOL:
+                        if not (r2.rel(f.projections(), M.dot(c)) <= TOL):   # NaN counts as a deviation
                             fail("gridfunction:projections:%s" % kind, "projections() of a %s function (%s) deviate by %.3g" % (kind, vname, r2.rel(f.projections(), M.dot(c))))
                         other = {"P1": "DP0", "DP0": "P1", "DP1": "P1", "RWG": "SNC", "SNC": "RWG"}[kind]
                         Mo = T[other].T.dot(m.block_diag(other, kind)).dot(T[kind])
@@ -209,7 +209,7 @@ def body():
                                     vec = np.cross(nrm, vec)
                                 want = want + loc[3 * e : 3 * e + 3].dot(vec)
                         got = np.asarray(f.integrate())
-                        if np.abs(got - want).max() > TOL * max(1.0, np.abs(want).max()):
+                        if not (np.abs(got - want).max() <= TOL * max(1.0, np.abs(want).max())):   # NaN counts as a deviation
                             fail("gridfunction:integrate:%s" % kind, "integrate() of a %s function (%s) = %s, exact %s" % (kind, vname, got, want))
                         # point evaluation
                         if kind == "P1":
@@ -224,21 +224,21 @@ def body():
                                     area_w[v] += m.J[e]
                                     seen[v] = True
                             vert[seen] /= area_w[seen]
-                            if np.abs(ev - vert).max() > TOL * max(1.0, np.abs(vert).max()):
+                            if not (np.abs(ev - vert).max() <= TOL * max(1.0, np.abs(vert).max())):   # NaN counts as a deviation
                                 fail("gridfunction:evaluate_on_vertices", "evaluate_on_vertices of a P1 function (%s) deviates" % vname)
                             ce = f.evaluate_on_element_centers()[0]
                             wantc = np.array([loc[3 * e : 3 * e + 3].sum() / 3.0 if s.support[e] else 0.0 for e in range(m.n)])
-                            if np.abs(ce - wantc).max() > TOL * max(1.0, np.abs(wantc).max()):
+                            if not (np.abs(ce - wantc).max() <= TOL * max(1.0, np.abs(wantc).max())):   # NaN counts as a deviation
                                 fail("gridfunction:evaluate_on_element_centers", "evaluate_on_element_centers of a P1 function (%s) deviates" % vname)
                             for e in np.flatnonzero(s.support)[:3]:
                                 v = f.evaluate(int(e), np.array([[0.0, 1.0, 0.0, 0.25], [0.0, 0.0, 1.0, 0.5]]))[0]
                                 lw = loc[3 * e : 3 * e + 3]
-                                if np.abs(v - np.array([lw[0], lw[1], lw[2], 0.25 * lw[0] + 0.25 * lw[1] + 0.5 * lw[2]])).max() > TOL * max(1.0, np.abs(lw).max()):
+                                if not (np.abs(v - np.array([lw[0], lw[1], lw[2], 0.25 * lw[0] + 0.25 * lw[1] + 0.5 * lw[2]])).max() <= TOL * max(1.0, np.abs(lw).max())):   # NaN counts as a deviation
                                     fail("gridfunction:evaluate", "evaluate() of a P1 function deviates on element %d (%s)" % (e, vname))
                         if kind == "DP0":
                             ce = f.evaluate_on_element_centers()[0]
                             wantc = np.array([loc[e] if s.support[e] else 0.0 for e in range(m.n)])
-                            if np.abs(ce - wantc).max() > TOL * max(1.0, np.abs(wantc).max()):
+                            if not (np.abs(ce - wantc).max() <= TOL * max(1.0, np.abs(wantc).max())):   # NaN counts as a deviation
                                 fail("gridfunction:evaluate_on_element_centers", "evaluate_on_element_centers of a DP0 function (%s) deviates" % vname)
                 # callables that lie in the space are reproduced exactly
                 a = np.array([1.0, -2.0, 0.5])
@@ -265,20 +265,20 @@ def body():
                             if True:
                                 # with boundary dofs included the affine function lies in the space restricted to its support
                                 want = factor * uvert[ent]
-                                if np.abs(gf.coefficients - want).max() > 1e-9 * max(1.0, np.abs(want).max()):
+                                if not (np.abs(gf.coefficients - want).max() <= 1e-9 * max(1.0, np.abs(want).max())):   # NaN counts as a deviation
                                     fail("callable:%s" % fname, "P1 coefficients of an affine %s callable (order %d, %s) deviate by %.3g from the vertex values" % (
                                         fname, o, vname, np.abs(gf.coefficients - want).max()))
                                     break
                     par.quadrature.regular = 4
                     gf = api.GridFunction(sp["DP0"], fun=f_dom)
                     want = np.array([2.0 * m.dom[e] + 1.0 for e in np.flatnonzero(sp["DP0"].support)])
-                    if np.abs(gf.coefficients - want).max() > 1e-10:
+                    if not (np.abs(gf.coefficients - want).max() <= 1e-10):   # NaN counts as a deviation
                         fail("callable:domain_index", "DP0 coefficients of a domain-wise constant callable (%s) deviate" % vname)
                     for fv, fac, nm in ((f_dom_vec, 1.0, "vectorized"), (f_dom_vec_c, 1.0 + 0.5j, "vectorized complex")):
                         for kk in ("DP0", "DP1"):
                             gfv = api.GridFunction(sp[kk], fun=fv)
                             wantv = fac * np.repeat(want, 1 if kk == "DP0" else 3)
-                            if np.abs(gfv.coefficients - wantv).max() > 1e-10:
+                            if not (np.abs(gfv.coefficients - wantv).max() <= 1e-10):   # NaN counts as a deviation
                                 fail("callable:domain_index:%s" % nm.replace(" ", "_"), "%s coefficients of a domain-wise constant %s callable (%s) deviate by %.3g" % (
                                     kk, nm, vname, np.abs(gfv.coefficients - wantv).max()))
                     # projections of a constant vector field onto RWG
@@ -305,7 +305,7 @@ def body():
                     try:
                         A = api.MultiplicationOperator(gfun, s, s, s).weak_form().to_dense()
                         chk.count((m.id, vname, "multop"), True)
-                        if r2.rel(A, W) > TOL:
+                        if not (r2.rel(A, W) <= TOL):   # NaN counts as a deviation
                             fail("multiplication_operator:component", "MultiplicationOperator(P1 function; P1, P1, P1; %s) deviates by %.3g from the exact triple-product matrix" % (vname, r2.rel(A, W)))
                     except Exception as exc:
                         fail("multiplication_operator:component", "MultiplicationOperator raises %s: %s" % (type(exc).__name__, exc))
@@ -323,7 +323,7 @@ def body():
                     try:
                         A = api.MultiplicationOperator(gfun, s, sp["DP0"], sp["DP0"], mode="inner").weak_form().to_dense()
                         chk.count((m.id, vname, "multop_inner"), True)
-                        if r2.rel(A, W) > TOL:
+                        if not (r2.rel(A, W) <= TOL):   # NaN counts as a deviation
                             fail("multiplication_operator:inner", "MultiplicationOperator(mode='inner'; RWG, DP0, DP0; %s) deviates by %.3g" % (vname, r2.rel(A, W)))
                     except Exception as exc:
                         fail("multiplication_operator:inner", "MultiplicationOperator(mode='inner') raises %s: %s" % (type(exc).__name__, exc))
